@@ -65,6 +65,9 @@ Mut(kind, key, key2, exists) == [kind |-> kind, key |-> key, key2 |-> key2, exis
 \* does the wrapped storage accept the mutation (natural failures: NoSuchKey, NoSuchUpload)
 NeedsTarget == {"copy", "complete", "tagput", "tagdel", "transition", "transition0"}
 InnerOk(m) == m.kind \in NeedsTarget => m.exists
+\* AppendObject is not wrapped by the middleware (no event type exists for it): the call
+\* goes straight to the wrapped storage, which runs it in a transaction of its own
+Wrapped(m) == m.kind # "append"
 
 DeleteEv(c)  == IF c.versioned THEN Ev("ObjectRemoved", "DeleteMarkerCreated") ELSE Ev("ObjectRemoved", "Delete")
 LDeleteEv(c) == IF c.versioned THEN Ev("LifecycleExpiration", "DeleteMarkerCreated") ELSE Ev("LifecycleExpiration", "Delete")
@@ -103,7 +106,7 @@ Visible(c, m) ==
 TxResult(c, m, f) ==
   LET n == Cardinality(ExpectedEntries(c, m)) IN
   IF ~InnerOk(m) THEN [committed |-> FALSE, reached |-> FALSE]
-  ELSE IF f = "inner" THEN [committed |-> FALSE, reached |-> TRUE]
+  ELSE IF f = "inner" /\ Wrapped(m) THEN [committed |-> FALSE, reached |-> TRUE]
   ELSE IF f = "config" /\ EventsOf(c, m) # {} THEN [committed |-> FALSE, reached |-> TRUE]
   ELSE IF \E k \in 1..n : f = SaveFault(k) THEN [committed |-> FALSE, reached |-> TRUE]
   ELSE IF f \in {"commit", "precommit"} THEN [committed |-> FALSE, reached |-> TRUE]
@@ -162,7 +165,7 @@ Stay(t) == tx' = t /\ UNCHANGED <<cfg, entry, muts>> /\ Frame(DispVars)
 
 TxInner ==
   /\ tx.stage = "inner"
-  /\ IF ~InnerOk(tx.m) \/ tx.fault = "inner" THEN Abort
+  /\ IF ~InnerOk(tx.m) \/ (tx.fault = "inner" /\ Wrapped(tx.m)) THEN Abort
      ELSE Stay([tx EXCEPT !.stage = IF EventsOf(cfg, tx.m) = {} THEN "commit" ELSE "config"])
 
 TxConfig ==
@@ -286,6 +289,7 @@ AdvanceNext ==
 
 \* ------------------------------------------------- bounded model (TLC, MC)
 CONSTANTS MCMaxAttempts,   \* set of MaxAttempts values explored
+          MCEb,            \* EventBridge flag values explored (TRUE: every event also goes to the implicit destination)
           MaxMut,          \* number of mutations
           MCFaults,        \* fault placements explored
           ScriptAlphabet, MaxScript,   \* publisher scripts: sequences over the alphabet up to this length
@@ -298,7 +302,7 @@ KDocTxt == <<"doc/", "a", ".txt">>
 MCRules == {[id |-> "r1", events |-> {Ev("ObjectCreated", "*")}, prefix |-> <<"img/">>, suffix |-> <<>>],
             [id |-> "r2", events |-> {Ev("ObjectRemoved", "Delete")}, prefix |-> <<>>, suffix |-> <<".txt">>]}
 MCCfgs == {[rules |-> MCRules, eb |-> eb, versioned |-> FALSE, maxAttempts |-> a, minB |-> 1, maxB |-> 2, lease |-> 2] :
-             a \in MCMaxAttempts, eb \in {FALSE}}
+             a \in MCMaxAttempts, eb \in MCEb}
 MCMuts == {Mut("put", KImgJpg, <<>>, TRUE),      \* matches r1
            Mut("put", KDocTxt, <<>>, TRUE),      \* matches nothing
            Mut("delete", KDocTxt, <<>>, TRUE),   \* matches r2
